@@ -18,6 +18,14 @@ ObsOk(text, o) ==
   /\ chains[o[1]].exact => o[2] = Analyze(text, chains[o[1]])
 TTok == Ev.ev = "tok" /\ (\A k \in 1..Len(Ev.obs) : ObsOk(Ev.text, Ev.obs[k])) = TRUE /\ UNCHANGED chains
 
+\* one chain given with the event (its compound-splitter dictionary was cut out of this very text): the
+\* invariants every chain owes; the token texts behind a splitter / stemmer are not specified
+TTok1 ==
+  /\ Ev.ev = "tok1"
+  /\ (/\ TokenInv(Ev.text, Ev.chain, Ev.tokens)
+      /\ Ev.chain.exact => Ev.tokens = Analyze(Ev.text, Ev.chain)) = TRUE
+  /\ UNCHANGED chains
+
 \* a snippet; max_num_chars binds unless the event says it is the recorded shape F12 ("f12": true)
 TSnip ==
   /\ Ev.ev = "snip"
@@ -42,7 +50,7 @@ TBig ==
       /\ \A k \in 1..(Len(ts) - 1) : ts[k][3] <= ts[k + 1][3]) = TRUE
   /\ UNCHANGED chains
 
-TNext == l <= Len(Rec) /\ l' = l + 1 /\ (TReset \/ TTok \/ TSnip \/ TBig)
+TNext == l <= Len(Rec) /\ l' = l + 1 /\ (TReset \/ TTok \/ TTok1 \/ TSnip \/ TBig)
 TInit == l = 1 /\ chains = <<>>
 TSpec == TInit /\ [][TNext]_vars
 
